@@ -73,3 +73,16 @@ Definition rtr_length_field (buf : list N) : option N :=
 
 Definition rtr_complete (buf : list N) : Prop :=
   exists l, rtr_length_field buf = Some l /\ l <= len buf.
+
+(* BGP framing rule (RFC 4271 section 4.1, RFC 8654): 19-byte header whose bytes
+   16..17 are the message length; the frame is complete once that many bytes
+   are buffered.  A header whose length is outside 19..max is complete (and
+   invalid: it must be rejected, not waited on). *)
+Definition bgp_length_field (buf : list N) : option N :=
+  match nth_error buf 16, nth_error buf 17 with
+  | Some a, Some b => Some (be16 a b)
+  | _, _ => None
+  end.
+
+Definition bgp_complete (maxlen : N) (buf : list N) : Prop :=
+  19 <= len buf /\ exists l, bgp_length_field buf = Some l /\ (l < 19 \/ maxlen < l \/ l <= len buf).
